@@ -335,7 +335,21 @@ pub fn check_ranges_transition(info: &LangInfo, parser: &mut Parser, doc: &[u8],
                     // keeps the old root (the symmetric difference of two textless range lists is empty), so its position is
                     // that of the OLD first range, while a from-scratch parse puts it at the start of the new first range.
                     let lone_empty = |x: &XTree| x.nodes.len() == 1 && x.nodes[0].start == x.nodes[0].end;
-                    let fp = if lone_empty(&ix) && lone_empty(&sx) { "ranges:empty-root-position" } else { "ranges:incremental-differs-from-scratch" };
+                    // Known finding of the same kind for a zero-width token (an external scanner can produce one before any text):
+                    // with an empty first range in the old or the new list, the token (and the nodes that begin with it) sits at
+                    // that empty range's start; two lists that differ only in empty ranges have no difference, so the old token
+                    // is reused where it was. Everything else about the two trees must agree.
+                    let first_empty = |r: &[(usize, usize)]| r.first().map_or(false, |&(s, e)| s == e);
+                    let new_first = r2.first().map_or(0, |&(s, _)| s);
+                    let only_leading_zero_width = (first_empty(r1) || first_empty(r2)) && ix.nodes.len() == sx.nodes.len() && ix.nodes.iter().zip(sx.nodes.iter()).all(|(a, b)| {
+                        a.kind_id == b.kind_id && a.named == b.named && a.extra == b.extra && a.missing == b.missing && a.field_id == b.field_id
+                            && ((a.end == b.end && a.ep == b.ep) || (a.start == a.end && b.start == b.end && b.start == new_first))
+                            && a.children.len() == b.children.len() && a.depth == b.depth && a.is_error == b.is_error
+                            && ((a.start == b.start && a.sp == b.sp) || b.start == new_first)
+                    });
+                    let fp = if lone_empty(&ix) && lone_empty(&sx) { "ranges:empty-root-position" }
+                        else if only_leading_zero_width { "ranges:zero-width-token-at-empty-leading-range" }
+                        else { "ranges:incremental-differs-from-scratch" };
                     errs.push((fp.into(), format!("{} | inc={} scratch={}", diff, ix.sexp(lang), sx.sexp(lang))));
                 }
             } else if !ix.root_has_error() {
